@@ -20,6 +20,9 @@ type modelProp struct {
 	rule    string
 	nontriv func(feat map[string]int) bool
 	fixed   [][]gen.Stmt
+	genf    func(g *gen.G, c *wk.Case) []gen.Stmt
+	nQuick  int
+	nThor   int
 }
 
 func lit(i int64) gen.Expr { return &gen.IntLit{V: i} }
@@ -67,8 +70,14 @@ func registerModelProp(mp *modelProp) {
 		ID: mp.id,
 		Plan: func(tier string) fw.Plan {
 			n := 8000
+			if mp.nQuick > 0 {
+				n = mp.nQuick
+			}
 			if tier == "thorough" {
 				n = 400000
+				if mp.nThor > 0 {
+					n = mp.nThor
+				}
 			}
 			return fw.Plan{
 				Level: "exploration",
@@ -88,7 +97,11 @@ func registerModelProp(mp *modelProp) {
 				feat["fixed"] = 1
 			} else {
 				g := gen.New(c.Rng, mp.prof)
-				prog = g.Program(25 + c.Rng.Intn(80))
+				if mp.genf != nil {
+					prog = mp.genf(g, c)
+				} else {
+					prog = g.Program(25 + c.Rng.Intn(80))
+				}
 				feat = g.Feat
 			}
 			src := gen.Source(prog)
@@ -128,6 +141,17 @@ func registerModelProp(mp *modelProp) {
 }
 
 func init() {
+	registerModelProp(&modelProp{
+		id: "C07", prof: gen.ProfControl, nQuick: 30000, nThor: 1200000,
+		fixed: [][]gen.Stmt{{
+			&gen.ExprStmt{X: &gen.FuncLit{Name: "f0", Body: []gen.Stmt{&gen.Return{Exprs: []gen.Expr{&gen.Call{Fn: "hv", Args: []gen.Expr{lit(100)}}}}}}},
+			&gen.ExprStmt{X: &gen.Call{Fn: "f0", Spread: true, Args: []gen.Expr{gen.P(1), &gen.ListLit{Elems: []gen.Expr{gen.P(2)}}}}},
+			&gen.ExprStmt{X: gen.P(3)},
+		}},
+		genf: func(g *gen.G, c *wk.Case) []gen.Stmt { return g.OrderProgram() },
+		rule: "PRNG-generated programs whose statements are expression forms with side-effecting probe leaves p(k)/pv(k,v)/pe(k): every call path (script functions of 0-7 parameters i.e. direct and reflect paths, variadic script functions, Go functions fixed/variadic with interface and typed parameters) x {plain, spread literal, spread variable} x {direct, go, defer, anonymous callee, member callee} x {right count, one too few, one too many} x {operands succeed, one fails, one has an unconvertible type}; list/map literals, all binary operators, index, 2- and 3-index slices, return lists, multi-var/assign, in, switch subject, len, op-assign on an indexed target; && || ?: ?? with every truthiness/nil/failing deciding operand. The recorded probe trace must equal the model's unique left-to-right exactly-once short-circuit trace (a call refused for its argument count may have evaluated any prefix of its operands, each at most once). Non-trivial = at least 3 probe events observed; distinct = distinct source text.",
+		nontriv: func(f map[string]int) bool { return true },
+	})
 	exits := []string{"break", "continue", "return", "throw", "runtime-error"}
 	registerModelProp(&modelProp{
 		id: "C04", prof: gen.ProfScope, fixed: tryControlFixed(),
